@@ -379,9 +379,27 @@ def rule_scanner_structure(ctx, rep):
         ne = [b for b in qq.calls('FindNumbers::number_end') if b in reach]
         rep.check(len(ne) == 1 and 'WordToDigitParser::has_number(self.parser)' in qq.facts(ne[0]), R, 'S2-nan-ends-number',
                   'a nan token ends the number in progress', 'the nan path does not end the number in progress under has_number()')
-    # S3 separation hint
-    test_defs = [(bi, untag(pretty(x.desc_rvalue(rv)))) for bi, si, pl, rv in x.assignments()
-                 if x.names.get(pl['l']) == 'test' and not pl['p']]
+    # S3 separation hint: the word presented to the parser by the first push
+    first = [b for b in parser_push if not (qq.desc(b) or '').endswith('(self.parser, Token::text_lowercase(a3))')]
+    retry = [b for b in parser_push if (qq.desc(b) or '').endswith('(self.parser, Token::text_lowercase(a3))')]
+    rep.check(len(first) == 1 and len(retry) == 1 and len(parser_push) == 2, R, 'S3-two-pushes',
+              'one push of the (possibly substituted) word, one retry with the token\'s own lowercase text',
+              'parser.push calls are %s' % [qq.desc(b) for b in parser_push])
+    test_defs = []
+    if first:
+        op = qq.term(first[0])['args'][1]
+        tl = op['pl']['l'] if 'pl' in op else None
+        for _ in range(6):
+            ds = x.whole_defs(tl) if tl is not None else []
+            if len(ds) == 1 and ds[0][0] == 'assign' and ds[0][3]['rv']['k'] in ('use', 'ref', 'copyforderef'):
+                rv = ds[0][3]['rv']
+                src = rv['op']['pl'] if rv['k'] == 'use' and 'pl' in rv['op'] else rv.get('pl')
+                if src is None or any(p != 'deref' for p in src['p']):
+                    break
+                tl = src['l']
+            else:
+                break
+        test_defs = [(d[1], untag(pretty(x.desc_rvalue(d[3]['rv'])))) for d in (x.whole_defs(tl) if tl is not None else []) if d[0] == 'assign']
     comma = [bi for bi, v in test_defs if v == '","']
     others = {v for bi, v in test_defs if v != '","'}
     rep.check(len(comma) == 1 and others == {'Token::text_lowercase(a3)'}, R, 'S3-test-values',
@@ -392,11 +410,6 @@ def rule_scanner_structure(ctx, rep):
         rep.check('WordToDigitParser::has_number(self.parser)' in fc and 'Token::nt_separated(a3, (self.previous as Some).0)' in fc,
                   R, 'S3-comma-guard', '"," is substituted exactly under has_number() && token.nt_separated(previous)',
                   '"," substitution is not guarded by has_number() && nt_separated(prev) (facts %s)' % fc)
-    first = [b for b in parser_push if re.search(r', test\)$', qq.desc(b) or '')]
-    retry = [b for b in parser_push if (qq.desc(b) or '').endswith('(self.parser, Token::text_lowercase(a3))')]
-    rep.check(len(first) == 1 and len(retry) == 1 and len(parser_push) == 2, R, 'S3-two-pushes',
-              'one push of `test`, one retry with the token\'s own lowercase text',
-              'parser.push calls are %s' % [qq.desc(b) for b in parser_push])
     # S4 number_advanced only on Ok, with the unmodified position
     for i, b in enumerate(advanced):
         fa = qq.facts(b)
@@ -406,7 +419,7 @@ def rule_scanner_structure(ctx, rep):
                   'number_advanced(%s) is reachable without an Ok from parser.push (facts %s)' % (qq.desc(b), fa[-3:]), _loc(ctx, qq, b))
     rep.check(len(advanced) == 2, R, 'S4-count', 'two advance sites (first try, retry)', 'expected 2 number_advanced sites, found %d' % len(advanced))
     # S5 Incomplete advances nothing
-    inc = qq.edge_targets_re(r'^discr\(\(WordToDigitParser::push\(self\.parser, test\) as Err\)\.0\) == Incomplete$')
+    inc = qq.edge_targets_re(r'^discr\(\(WordToDigitParser::push\(self\.parser, \w+\) as Err\)\.0\) == Incomplete$')
     if len(inc) != 1:
         rep.anchor(R, 'S5-incomplete', 'no unique Err(Incomplete) branch')
     else:
@@ -549,5 +562,19 @@ def rule_shared_interpreter(ctx, rep):
                   'text2digits = exec_group + format_and_value', 'text2digits calls %s' % trait_calls)
         eg = qq.calls('LangInterpreter::exec_group')
         if eg:
-            rep.check(qq.desc(eg[0]) == 'LangInterpreter::exec_group(a2, str::split_whitespace(Deref::deref(str::to_lowercase(a1))))', R,
-                      'text2digits|input', 'validates the lowercased text split on Unicode whitespace', 'validates `%s`' % qq.desc(eg[0]))
+            d = qq.desc(eg[0])
+            # whitespace trimming before the split is behaviour-preserving: ignore it
+            core = d
+            for w in ('str::trim(', 'str::trim_start(', 'str::trim_end(', 'Deref::deref('):
+                while w in core:
+                    i = core.index(w)
+                    j = i + len(w)
+                    depth = 1
+                    k = j
+                    while k < len(core) and depth:
+                        depth += core[k] == '('
+                        depth -= core[k] == ')'
+                        k += 1
+                    core = core[:i] + core[j:k - 1] + core[k:]
+            rep.check(core == 'LangInterpreter::exec_group(a2, str::split_whitespace(str::to_lowercase(a1)))', R,
+                      'text2digits|input', 'validates the lowercased text split on Unicode whitespace', 'validates `%s`' % d)
